@@ -31,7 +31,7 @@ SIGMA10 = ['a', ' ', '\\', '\n', '{', '%', '^', '!', 'M', '\x00']
 
 # (name, assignments via Context.catcode or 'verbatim', alphabet)
 TABLES = {
-    'default': ([], SIGMA18 + ['&', '_']),
+    'default': ([], SIGMA18 + ['&', '_', '\r', '\x0c', 'J']),
     'atletter': ([('@', 11)], ['a', '@', ' ', '\\', '\n', '%', '^', '1', '{', '~', '\x00']),
     'verbatim': ('verbatim', ['a', ' ', '\\', '\n', '{', '%', '^', '~', '\x00', '#']),
     'demoted': ([('a', 12), ('b', 12)], ['a', 'b', 'c', ' ', '\\', '\n', '%', '^', '1']),
@@ -144,6 +144,16 @@ def judge(table, s, via_tex=False):
 
 
 def replay(case):
+    if case.get('table') == 'recat':
+        v, exp, obs = judge_recat(case['s'], case['k'], tuple(case['change']))
+        if isinstance(v, tuple):
+            from vp.core import Findings
+            f = Findings()
+            if all(f.is_open(x) for x in v[1]):
+                return {'verdict': 'known', 'fid': v[1][0], 'expected': exp, 'observed': obs, 'detail': ''}
+            v = 'violation'
+        return {'verdict': 'ok' if v in ('ok', 'skip') else 'violation', 'expected': exp, 'observed': obs,
+                'detail': 'category change between token requests'}
     v, fids, exp, obs, detail = judge(case['table'], case['s'], case.get('via_tex', False))
     if v == 'known':
         from vp.core import Findings
@@ -157,6 +167,8 @@ def replay(case):
 
 
 def run_block(block):
+    if block[0] == 'recat':
+        return run_block_recat(block)
     table, prefix, maxlen, sigma, via_tex, min_len, must = block
     rep = core.Report()
     cmap = cat_map(table)
@@ -210,6 +222,92 @@ def run_block(block):
     return rep.close_block()
 
 
+# ---- category change between two token requests (push-back must be re-read under the table then in force) ---------
+RECAT_SIGMA = ['a', ' ', '\\', '1', '%', '^', '~']
+RECAT_CHANGES = [(' ', 12), (' ', 13), ('a', 12), ('1', 11), ('\\', 12), ('%', 12), ('~', 12), ('^', 12)]
+
+
+def judge_recat(s, k, change):
+    """tokenize s, take k tokens, change one category through Context.catcode, take the rest"""
+    from plasTeX.Context import Context
+    from plasTeX.Tokenizer import Tokenizer
+    cm1 = dict(DEFAULT)
+    r = R.lex(s, cm1, 0, STATIC_LETTERS, max_tokens=k)
+    if isinstance(r, str):
+        return 'skip', None, None
+    t1, rest, st = r
+    if len(t1) < k:
+        return 'skip', None, None
+    cm2 = dict(cm1)
+    cm2[change[0]] = change[1]
+    t2 = R.lex(rest, cm2, 0, STATIC_LETTERS, start_state=st)
+    if isinstance(t2, str):
+        return 'skip', None, None
+    exp = [((0, 'active::' + c) if kk == 13 else (kk, c)) for (kk, c) in t1 + t2]
+    ctx = Context()
+    ctx.push()
+    try:
+        with core.time_limit(5.0):
+            it = iter(Tokenizer(s, ctx))
+            obs = []
+            for _ in range(k):
+                t = next(it)
+                obs.append((t.catcode, str(t)))
+            ctx.catcode(change[0], change[1])
+            for t in it:
+                obs.append((t.catcode, str(t)))
+    except core.Timeout:
+        obs = 'timeout'
+    except StopIteration:
+        obs = 'fewer tokens than the reference'
+    except Exception as e:
+        obs = 'raises:%s' % type(e).__name__
+    if obs == exp:
+        return 'ok', exp, obs
+    # the documented deviations of the single-table oracle apply here as well
+    devs = sorted(R.DEV_NAMES)
+    for n_ in range(1, 3):
+        for sub in itertools.combinations(devs, n_):
+            d = 0
+            for x in sub:
+                d |= x
+            r = R.lex(s, cm1, d, STATIC_LETTERS, max_tokens=k)
+            if isinstance(r, str) or len(r[0]) < k:
+                continue
+            e2 = R.lex(r[1], cm2, d, STATIC_LETTERS, start_state=r[2])
+            if isinstance(e2, str):
+                continue
+            if obs == [((0, 'active::' + c) if kk == 13 else (kk, c)) for (kk, c) in r[0] + e2]:
+                return ('known', [R.DEV_NAMES[x] for x in sub]), exp, obs
+    return 'violation', exp, obs
+
+
+def run_block_recat(block):
+    _, first, maxlen = block
+    rep = core.Report()
+    for L in range(0, maxlen):
+        for tail in itertools.product(RECAT_SIGMA, repeat=L):
+            s = first + ''.join(tail)
+            if _is_hex3(s):
+                continue
+            for k in (1, 2):
+                for change in RECAT_CHANGES:
+                    v, exp, obs = judge_recat(s, k, change)
+                    if v == 'skip':
+                        continue
+                    rep.case(key=('recat', s, k, change), nontrivial=True, outcome=('recat', repr(obs)))
+                    rep.count('recat')
+                    case = {'table': 'recat', 's': s, 'k': k, 'change': list(change)}
+                    if v == 'ok':
+                        continue
+                    if isinstance(v, tuple):
+                        for f in v[1]:
+                            rep.known_finding(f, case, 'category of %r changed to %d after %d tokens' % (change[0], change[1], k))
+                    else:
+                        rep.violation(case, exp, obs, 'category of %r changed to %d after %d tokens' % (change[0], change[1], k))
+    return rep.close_block()
+
+
 def run(tier, seed, rep):
     quick = tier == 'quick'
     blocks = []
@@ -233,7 +331,7 @@ def run(tier, seed, rep):
         if name == 'default':
             L = 5 if quick else 6
             sig = SIGMA18
-            add(name, sigma, 3 if quick else 4, must='&_')          # incl. & and _
+            add(name, sigma, 3 if quick else 4, must='&_\r\x0cJ')  # incl. & _ CR FF and J (^^J = newline)
         else:
             L = 4 if quick else 6
             sig = sigma
@@ -246,6 +344,10 @@ def run(tier, seed, rep):
         bounds['default_merged10'] = {'alphabet': 10, 'max_len': 7}
     add('default', SIGMA18, 3 if quick else 4, via_tex=True)
     bounds['via_TeX_itertokens'] = {'alphabet': 18, 'max_len': 3 if quick else 4}
+    for first in RECAT_SIGMA:
+        blocks.append(('recat', first, 4 if quick else 5))
+    bounds['recategorised_between_tokens'] = {'alphabet': len(RECAT_SIGMA), 'max_len': 4 if quick else 5,
+                                              'changes': len(RECAT_CHANGES), 'after_tokens': [1, 2]}
     blocks = core.rotate(blocks, seed)
     core.merge_all(run_block, blocks, rep, chunksize=4)
     return {'exhaustive': True, 'bounds': bounds, 'blocks': len(blocks),
